@@ -10,6 +10,8 @@ export VERIF_SEED=$S
 ls seeded | grep -E '^C[0-9]+-[0-9]+$' | xargs -P ${P:-6} -I{} sh -c 'id={}; p=${id%-*}; k=${id#*-}; tools/seedtest.py seeded/$id $p $k --skip-confirm > '$D'/$id.log 2>&1'
 tot=0; det=0; inp=0
 for f in $D/*.log; do
+  id=$(basename $f .log)
+  grep -q '"excluded"' seeded/$id/meta.json 2>/dev/null && continue
   tot=$((tot+1))
   grep -q '"detected": true' $f && det=$((det+1)) || echo "NOT DETECTED: $f"
   grep -q '"detected_with_input": true' $f && inp=$((inp+1)) || echo "NO INPUT: $f"
